@@ -16,6 +16,8 @@ import (
 	"errors"
 	"fmt"
 	"io"
+	"reflect"
+	"runtime"
 	"sort"
 	"strconv"
 	"strings"
@@ -74,7 +76,23 @@ type world struct {
 	mon      []string
 	lastSnap string
 	nextID   int
+	reqs     []reqRec                  // every ack / clear request the harness submitted, with the log position at submission
+	expects  []func() (string, string) // sentinel expectations (finding key, description) on the responses of the real relay (model independent)
+	goBase   int                       // relay goroutines alive when the scenario started
 }
+
+// reqRec is one AckMsg / ClearMsg request a client stream submitted. `at` is the length of the
+// event log when it was handed to the stream: everything the relay does because of it is logged later.
+type reqRec struct {
+	call  int
+	kind  string // "ack" | "clear"
+	k     uint64
+	epoch uint64
+	at    int
+}
+
+// errFakeSend is the error a fake stream's Send returns when the scenario makes the write fail.
+var errFakeSend = errors.New("verif: stream write failed")
 
 type submission struct {
 	mid       int
@@ -90,24 +108,28 @@ type submission struct {
 }
 
 type sessStream struct {
-	w        *world
-	id       int
-	src, dst int
-	ctx      context.Context
-	cancel   context.CancelFunc
-	reqCh    chan *signaling.SessionRequest
-	mtx      sync.Mutex
-	resps    []*signaling.SessionResponse
-	done     chan struct{}
-	err      error
-	valid    []*submission // every SendMsg submission on this stream, in order
-	nextQ    uint64
-	closedRx bool
-	hold     chan struct{} // when non-nil, Send blocks (after logging) until released: a slow client
-	inSend   chan struct{}
-	killed   bool   // the harness cancelled the stream
-	poison   string // the harness sent a request the relay must answer by failing the stream
-	first    string // scripted first request ("" = a valid Init)
+	w             *world
+	id            int
+	src, dst      int
+	ctx           context.Context
+	cancel        context.CancelFunc
+	reqCh         chan *signaling.SessionRequest
+	mtx           sync.Mutex
+	resps         []*signaling.SessionResponse
+	done          chan struct{}
+	err           error
+	valid         []*submission // every SendMsg submission on this stream, in order
+	nextQ         uint64
+	closedRx      bool
+	hold          chan struct{} // when non-nil, Send blocks (after logging) until released: a slow client
+	inSend        chan struct{}
+	killed        bool                  // the harness cancelled the stream
+	poison        string                // the harness sent a request the relay must answer by failing the stream
+	first         string                // scripted first request ("" = a valid Init)
+	failSend      bool                  // the next Send on this stream returns errFakeSend (the transport under the stream broke)
+	sendErrs      int                   // number of Send calls that returned errFakeSend
+	sendsAfterErr int                   // Send calls made by the handler AFTER one of its Sends had returned an error
+	lastSubAuth   *signaling.SessionMsg // the last authentic message submitted on this stream (for re-signed copies)
 }
 
 func (s *sessStream) holdSends() {
@@ -138,11 +160,34 @@ func (s *sessStream) kill() {
 
 func (s *sessStream) Context() context.Context { return s.ctx }
 func (s *sessStream) Send(m *signaling.SessionResponse) error {
+	// as SRPC does: the response is serialised when Send is called; what the client gets (and what
+	// the monitors judge) is the decoded wire form, never the relay's own object
+	data, merr := m.MarshalVT()
+	cp := new(signaling.SessionResponse)
+	if merr == nil {
+		merr = cp.UnmarshalVT(data)
+	}
+	if merr != nil {
+		return merr
+	}
 	s.mtx.Lock()
-	s.resps = append(s.resps, m)
+	if s.sendErrs > 0 {
+		s.sendsAfterErr++
+	}
+	if s.failSend {
+		s.failSend = false
+		s.sendErrs++
+		s.mtx.Unlock()
+		return errFakeSend
+	}
+	if s.sendErrs > 0 {
+		s.mtx.Unlock()
+		return errFakeSend
+	}
+	s.resps = append(s.resps, cp)
 	hold, inSend := s.hold, s.inSend
 	s.mtx.Unlock()
-	s.w.logTx(s.id, m)
+	s.w.logTx(s.id, cp)
 	if hold != nil {
 		select {
 		case <-inSend:
@@ -157,24 +202,43 @@ func (s *sessStream) Send(m *signaling.SessionResponse) error {
 	return nil
 }
 func (s *sessStream) SendAndClose(m *signaling.SessionResponse) error { return s.Send(m) }
-func (s *sessStream) Recv() (*signaling.SessionRequest, error) {
+
+// recvWire returns the wire form of the next request (as SRPC: the server only ever sees bytes).
+func (s *sessStream) recvWire() ([]byte, error) {
 	select {
 	case r, ok := <-s.reqCh:
 		if !ok {
 			return nil, io.EOF
 		}
-		return r, nil
+		return r.MarshalVT()
 	case <-s.ctx.Done():
 		return nil, context.Canceled
 	}
 }
+
+// Recv decodes the next request into a fresh object (generated code: new + MsgRecv).
+func (s *sessStream) Recv() (*signaling.SessionRequest, error) {
+	data, err := s.recvWire()
+	if err != nil {
+		return nil, err
+	}
+	m := new(signaling.SessionRequest)
+	if err := m.UnmarshalVT(data); err != nil {
+		return nil, err
+	}
+	return m, nil
+}
+
+// RecvTo decodes the next request INTO the caller's object exactly as srpc.MsgRecv does
+// (UnmarshalVT without a reset: a oneof body of the same kind and its nested messages and byte
+// slices are overwritten in place), so a relay that re-uses one request object is seen as it would
+// behave on a real stream.
 func (s *sessStream) RecvTo(m *signaling.SessionRequest) error {
-	r, err := s.Recv()
+	data, err := s.recvWire()
 	if err != nil {
 		return err
 	}
-	*m = *r //nolint
-	return nil
+	return m.UnmarshalVT(data)
 }
 func (s *sessStream) MsgSend(srpc.Message) error { return nil }
 func (s *sessStream) MsgRecv(srpc.Message) error { return io.EOF }
@@ -182,18 +246,21 @@ func (s *sessStream) CloseSend() error           { return nil }
 func (s *sessStream) Close() error               { return nil }
 
 type listenStream struct {
-	w      *world
-	id     int
-	pid    int
-	ctx    context.Context
-	cancel context.CancelFunc
-	mtx    sync.Mutex
-	resps  []*signaling.ListenResponse
-	done   chan struct{}
-	err    error
-	hold   chan struct{} // when non-nil, Send blocks (after logging) until it is closed: a slow client
-	inSend chan struct{} // closed when the first held Send has been entered
-	killed bool
+	w             *world
+	id            int
+	pid           int
+	ctx           context.Context
+	cancel        context.CancelFunc
+	mtx           sync.Mutex
+	resps         []*signaling.ListenResponse
+	done          chan struct{}
+	err           error
+	hold          chan struct{} // when non-nil, Send blocks (after logging) until it is closed: a slow client
+	inSend        chan struct{} // closed when the first held Send has been entered
+	killed        bool
+	failSend      bool // the next Send returns errFakeSend
+	sendErrs      int
+	sendsAfterErr int
 }
 
 // holdSends makes the next Send calls block until release is called.
@@ -233,11 +300,32 @@ func (s *listenStream) alive() bool {
 
 func (s *listenStream) Context() context.Context { return s.ctx }
 func (s *listenStream) Send(m *signaling.ListenResponse) error {
+	data, merr := m.MarshalVT()
+	cp := new(signaling.ListenResponse)
+	if merr == nil {
+		merr = cp.UnmarshalVT(data)
+	}
+	if merr != nil {
+		return merr
+	}
 	s.mtx.Lock()
-	s.resps = append(s.resps, m)
+	if s.sendErrs > 0 {
+		s.sendsAfterErr++
+	}
+	if s.failSend {
+		s.failSend = false
+		s.sendErrs++
+		s.mtx.Unlock()
+		return errFakeSend
+	}
+	if s.sendErrs > 0 {
+		s.mtx.Unlock()
+		return errFakeSend
+	}
+	s.resps = append(s.resps, cp)
 	hold, inSend := s.hold, s.inSend
 	s.mtx.Unlock()
-	s.w.logLtx(s.id, m)
+	s.w.logLtx(s.id, cp)
 	if hold != nil {
 		select {
 		case <-inSend:
@@ -528,26 +616,43 @@ func (w *world) submit(s *sessStream, kind string) {
 	epoch, open := s.lastOpened()
 	e := w.e
 	switch {
-	case kind == "ack":
+	case kind == "ack" || kind == "ack-prev" || strings.HasPrefix(kind, "ack="):
 		// ack the last message received on this stream
-		var k uint64
+		var k, prev uint64
 		s.mtx.Lock()
 		for _, r := range s.resps {
 			if b, ok := r.GetBody().(*signaling.SessionResponse_RecvMsg); ok {
+				if b.RecvMsg.GetSeqno() != k {
+					prev = k
+				}
 				k = b.RecvMsg.GetSeqno()
 			}
 		}
 		s.mtx.Unlock()
-		if k == 0 || e.rng.Intn(6) == 0 {
+		switch {
+		case strings.HasPrefix(kind, "ack="):
+			k, _ = strconv.ParseUint(kind[4:], 10, 64)
+		case kind == "ack-prev" && prev != 0:
+			k = prev // a late acknowledgement of an earlier message (it crossed a withdrawal or a newer message)
+		case k == 0 || e.rng.Intn(6) == 0:
 			k = uint64(1 + e.rng.Intn(4)) // unsolicited / wrong ack
 		}
+		w.noteReq(s, "ack", k, epoch)
 		s.reqCh <- &signaling.SessionRequest{SessionSeqno: epoch, Body: &signaling.SessionRequest_AckMsg{AckMsg: k}}
-	case kind == "clear":
+	case kind == "clear" || strings.HasPrefix(kind, "clear="):
 		k := s.nextQ
-		if k == 0 || e.rng.Intn(5) == 0 {
+		if strings.HasPrefix(kind, "clear=") {
+			k, _ = strconv.ParseUint(kind[6:], 10, 64)
+		} else if k == 0 || e.rng.Intn(5) == 0 {
 			k = uint64(1 + e.rng.Intn(4))
 		}
+		w.noteReq(s, "clear", k, epoch)
 		s.reqCh <- &signaling.SessionRequest{SessionSeqno: epoch, Body: &signaling.SessionRequest_ClearMsg{ClearMsg: k}}
+	case kind == "fail-send":
+		// the transport under the stream breaks: the relay's next write on it returns an error
+		s.mtx.Lock()
+		s.failSend = true
+		s.mtx.Unlock()
 	case kind == "init-again":
 		s.setPoison(kind)
 		s.reqCh <- &signaling.SessionRequest{SessionSeqno: epoch, Body: &signaling.SessionRequest_Init{Init: &signaling.SessionInit{PeerId: e.pids[s.dst].String()}}}
@@ -595,6 +700,23 @@ func (w *world) submit(s *sessStream, kind string) {
 			msg = m
 		case "send-keyed": // authentic, with the sender's own (redundant) public key attached
 			msg, wantAuth = sigoracle.KeyedAuthentic(mine, data, q), true
+		case "send-resigned", "send-resigned-stale":
+			// the signature and sender of the last AUTHENTIC message submitted on this very stream,
+			// re-used with another payload (it looks like the retransmission of a verified message:
+			// same signature bytes, same from_peer_id, hence the same SignedMsg message id)
+			if s.lastSubAuth == nil {
+				m, err := signaling.NewSessionMsg(mine.SK, hash.HashType_HashType_BLAKE3, data, q)
+				if err != nil {
+					panic(err)
+				}
+				m.SignedMsg.Data[0] ^= 1
+				msg = m
+			} else {
+				m := s.lastSubAuth.CloneVT()
+				m.Seqno = q
+				m.SignedMsg.Data = append([]byte{^s.lastSubAuth.GetSignedMsg().GetData()[0]}, data...)
+				msg = m
+			}
 		case "send-nil-msg": // a SendMsg request without any message
 			msg = nil
 		default:
@@ -606,12 +728,12 @@ func (w *world) submit(s *sessStream, kind string) {
 		}
 		ep := epoch
 		switch kind {
-		case "send-stale":
+		case "send-stale", "send-resigned-stale":
 			if ep > 0 {
 				ep--
 			}
 		case "send-future":
-			ep += 3
+			ep += uint64(1 + 2*e.rng.Intn(2)) // the very next epoch, or further ahead
 		}
 		if !open && kind == "send" {
 			ep = epoch // 0: stale unless the session really is at 0 (never)
@@ -628,6 +750,9 @@ func (w *world) submit(s *sessStream, kind string) {
 		}
 		if !sub.authentic || kind == "send-future" {
 			s.setPoison(kind)
+		}
+		if sub.authentic {
+			s.lastSubAuth = msg
 		}
 		w.mtx.Lock()
 		sub.mid = len(w.subs) + 1
@@ -650,6 +775,87 @@ func (s *sessStream) setPoison(kind string) {
 	s.mtx.Unlock()
 }
 
+// pendingClearFor reports whether the relay's last logged state holds a withdrawal stored for
+// call s and not transmitted (read off the hook snapshot; informational).
+func (w *world) pendingClearFor(s *sessStream) bool {
+	w.canonical()
+	parts := strings.SplitN(w.lastSnap, "#", 2)
+	if len(parts) != 2 {
+		return false
+	}
+	for _, se := range strings.Split(parts[1], "|") {
+		f := strings.Split(se, ":")
+		if len(f) < 4 {
+			continue
+		}
+		for _, at := range f[2:4] {
+			af := strings.Split(at, "/")
+			if len(af) == 5 && af[0] == strconv.Itoa(s.id) && af[3] != "-" {
+				return true
+			}
+		}
+	}
+	return false
+}
+
+// respSeq is the sequence of responses of the given kinds a stream was sent, as "kind:seqno".
+func (s *sessStream) respSeq(kinds ...string) []string {
+	want := map[string]bool{}
+	for _, k := range kinds {
+		want[k] = true
+	}
+	var out []string
+	s.mtx.Lock()
+	defer s.mtx.Unlock()
+	for _, r := range s.resps {
+		switch x := r.GetBody().(type) {
+		case *signaling.SessionResponse_RecvMsg:
+			if want["recv"] {
+				out = append(out, fmt.Sprintf("recv:%d", x.RecvMsg.GetSeqno()))
+			}
+		case *signaling.SessionResponse_AckMsg:
+			if want["ack"] {
+				out = append(out, fmt.Sprintf("ack:%d", x.AckMsg))
+			}
+		case *signaling.SessionResponse_ClearMsg:
+			if want["clear"] {
+				out = append(out, fmt.Sprintf("clear:%d", x.ClearMsg))
+			}
+		}
+	}
+	return out
+}
+
+// expectSeq registers a sentinel expectation on what the real relay sent to a stream. It is
+// evaluated on the final response list at every verdict (order only, no timing).
+func (w *world) expectSeq(s *sessStream, what string, want []string, kinds ...string) {
+	w.expects = append(w.expects, func() (string, string) {
+		got := s.respSeq(kinds...)
+		if strings.Join(got, " ") != strings.Join(want, " ") {
+			return "sigsrv.ackclear:", fmt.Sprintf("%s: the relay sent [%s], the schedule requires [%s] (an acknowledgement / withdrawal must reach the partner for exactly the message it names, and must not disturb any other message)", what, strings.Join(got, " "), strings.Join(want, " "))
+		}
+		return "", ""
+	})
+}
+
+// expectEnded registers, at a quiescent point of the schedule, that a call whose stream write
+// failed must have returned by now (quiescence: no goroutine of the process is runnable).
+func (w *world) expectEnded(id int, what string, alive bool, sendErrs int) {
+	w.expects = append(w.expects, func() (string, string) {
+		if sendErrs > 0 && alive {
+			return "sigsrv.send-error:", fmt.Sprintf("%s call %d: a write on its stream returned an error, the relay became quiescent, and the call was still running (it ended only when something else replaced or cancelled it)", what, id)
+		}
+		return "", ""
+	})
+}
+
+// noteReq records an ack / clear request together with the log position at which it was submitted.
+func (w *world) noteReq(s *sessStream, kind string, k, epoch uint64) {
+	w.mtx.Lock()
+	w.reqs = append(w.reqs, reqRec{call: s.id, kind: kind, k: k, epoch: epoch, at: len(w.log)})
+	w.mtx.Unlock()
+}
+
 func (e *engine) newWorld(ident string) *world {
 	w := &world{e: e, calls: map[string]int{}, ident: ident}
 	if ident == "mounted" {
@@ -669,6 +875,7 @@ func (e *engine) scenario(kind string, n int) {
 		ident = "mounted"
 	}
 	w := e.newWorld(ident)
+	w.goBase, _ = relayGoroutines()
 	signaling_rpc_server.VerifSetSink(w.sink)
 	defer signaling_rpc_server.VerifSetSink(nil)
 	defer func() {
@@ -901,7 +1108,7 @@ func (e *engine) scenario(kind string, n int) {
 		// one message of every forgery class in the CURRENT epoch (each must fail the stream and
 		// must not be forwarded), re-attaching after each; authentic messages in between still flow
 		b := w.newSession(2, 1)
-		kinds := append(forgedKinds(), "send-forged-key", "send-tampered", "send-nil-msg", "send-keyed", "send")
+		kinds := append(forgedKinds(), "send-forged-key", "send-tampered", "send-nil-msg", "send-keyed", "send", "send-future", "init-again", "empty-request")
 		e.rng.Shuffle(len(kinds), func(i, j int) { kinds[i], kinds[j] = kinds[j], kinds[i] })
 		for _, k := range kinds {
 			a := w.newSession(1, 2)
@@ -915,6 +1122,178 @@ func (e *engine) scenario(kind string, n int) {
 		q()
 		w.submit(a, "send")
 		act("send on a fresh 1->2 call")
+	case "resigned-copy":
+		// C20 sentinel: a stream first submits an authentic message (forwarded, optionally
+		// acknowledged) and then re-uses that message's signature and sender with ANOTHER payload
+		// (same signature bytes + from_peer_id = same SignedMsg message id: what a "this one was
+		// verified already" shortcut would key on). The relay must fail the stream and forward nothing.
+		b := w.newSession(2, 1)
+		for i, v := range []string{"ack|send-resigned", "noack|send-resigned", "ack|send-resigned-stale", "ack|send|send-resigned"} {
+			a := w.newSession(1, 2)
+			q()
+			steps := strings.Split(v, "|")
+			w.submit(a, "send")
+			q()
+			if steps[0] == "ack" {
+				w.submit(b, "ack")
+				q()
+			}
+			for _, k := range steps[1:] {
+				w.submit(a, k)
+				q()
+			}
+			act(fmt.Sprintf("round %d on a fresh 1->2 call: authentic send; %s", i, strings.Join(steps, "; ")))
+		}
+	case "stale-ack":
+		// C21 sentinel (relay side of "acks and clears only affect the message they name"), and the
+		// expectation for a pending withdrawal: A sends m1 (forwarded to B), withdraws it, sends m2
+		// (forwarded); B's acknowledgement of m1 arrives late (it crossed the withdrawal): it must
+		// change nothing; B's acknowledgement of m2 must reach A as Ack(2). Then a withdrawal naming
+		// a message that is not outstanding must not disturb m3. The withdrawal of m1 must be
+		// announced to B before m2 is (the relay may hold it until B's next wake-up: see DESIGN).
+		a := w.newSession(1, 2)
+		b := w.newSession(2, 1)
+		q()
+		got := func(s *sessStream, what string, k uint64) bool {
+			ok := false
+			for t0 := time.Now(); !ok && time.Since(t0) < 5*time.Second; {
+				s.mtx.Lock()
+				for _, r := range s.resps {
+					switch x := r.GetBody().(type) {
+					case *signaling.SessionResponse_RecvMsg:
+						ok = ok || (what == "recv" && x.RecvMsg.GetSeqno() == k)
+					case *signaling.SessionResponse_AckMsg:
+						ok = ok || (what == "ack" && x.AckMsg == k)
+					}
+				}
+				s.mtx.Unlock()
+				if !ok {
+					time.Sleep(100 * time.Microsecond)
+				}
+			}
+			return ok
+		}
+		w.submit(a, "send") // m1
+		got(b, "recv", 1)
+		q()
+		w.submit(a, "clear=1")
+		q()
+		if pend := w.pendingClearFor(b); pend {
+			e.rep.Extra["withdrawals_held_at_quiescence"] = e.rep.Extra["withdrawals_held_at_quiescence"].(int) + 1
+		}
+		w.submit(a, "send") // m2
+		got(b, "recv", 2)
+		q()
+		w.submit(b, "ack=1") // late: m1 was withdrawn, m2 is outstanding
+		q()
+		w.submit(b, "ack=2")
+		got(a, "ack", 2)
+		q()
+		w.submit(a, "send") // m3
+		got(b, "recv", 3)
+		q()
+		w.submit(a, fmt.Sprintf("clear=%d", 5+e.rng.Intn(4))) // names nothing outstanding
+		q()
+		w.submit(a, "clear=2") // names a message that was delivered and acknowledged long ago
+		q()
+		w.submit(b, "ack=3")
+		got(a, "ack", 3)
+		q()
+		w.expectSeq(a, "acks transmitted to the sender (call 1->2)", []string{"ack:2", "ack:3"}, "ack")
+		w.expectSeq(b, "messages and withdrawals transmitted to the receiver (call 2->1)", []string{"recv:1", "clear:1", "recv:2", "recv:3"}, "recv", "clear")
+		act("A: send m1 (delivered); A: clear 1; A: send m2 (delivered); B: ack 1 (late, crossed the withdrawal); B: ack 2; A: send m3 (delivered); A: clear of a message that is not outstanding; A: clear 2; B: ack 3")
+	case "stored-then-stale":
+		// C20/C21 sentinel on the relay's handling of request objects (a real stream hands it bytes;
+		// RecvTo decodes into the caller's object in place): B's write loop is parked in a Send; A's
+		// m2 is stored for B; A then submits an authentic message stamped with a STALE epoch (dropped)
+		// and a withdrawal of something else; B resumes: what it is sent must be m1 and m2, untouched.
+		a := w.newSession(1, 2)
+		b := w.newSession(2, 1)
+		q()
+		b.holdSends()
+		w.submit(a, "send") // m1: B's loop takes it and parks in Send(RecvMsg m1)
+		select {
+		case <-b.inSend:
+		case <-time.After(2 * time.Second):
+		}
+		q()
+		w.submit(a, "send") // m2: stored for B
+		q()
+		w.submit(a, "send-stale") // authentic, stale epoch: dropped without an error
+		q()
+		if n%2 == 1 {
+			w.submit(a, "clear=9")
+			q()
+		}
+		b.release()
+		q()
+		w.expectSeq(b, "messages transmitted to the receiver (call 2->1)", []string{"recv:1", "recv:2"}, "recv")
+		act("attach 1->2, 2->1; 2->1 becomes a slow client; A: send m1 (B parks in its Send); A: send m2 (stored); A: authentic send stamped with a stale epoch (dropped); B resumes")
+	case "send-error-exit":
+		// C24/C25 sentinel: the handler's write fails (strm.Send returns an error): the call must end,
+		// and its cleanup must leave the relay as if the call had been cancelled (partner told Closed,
+		// want withdrawn, listener state released; a successor starts clean).
+		switch n % 3 {
+		case 0: // a Session call fails while forwarding a message
+			a := w.newSession(1, 2)
+			b := w.newSession(2, 1)
+			w.newListen(2)
+			q()
+			w.submit(b, "fail-send")
+			w.submit(a, "send")
+			q()
+			b.mtx.Lock()
+			be := b.sendErrs
+			b.mtx.Unlock()
+			w.expectEnded(b.id, "session", b.alive(), be)
+			b2 := w.newSession(2, 1)
+			q()
+			w.submit(a, "send")
+			q()
+			w.submit(b2, "ack")
+			act("listen 2; attach 1->2, 2->1; the next write to 2->1 fails; send on 1->2 (the relay's RecvMsg write fails); 2 re-attaches; send on 1->2; ack")
+		case 1: // a Listen call fails while announcing a peer
+			l := w.newListen(2)
+			q()
+			l.mtx.Lock()
+			l.failSend = true
+			l.mtx.Unlock()
+			w.newSession(1, 2)
+			q()
+			l.mtx.Lock()
+			le := l.sendErrs
+			l.mtx.Unlock()
+			w.expectEnded(l.id, "listen", l.alive(), le)
+			w.newListen(2)
+			q()
+			w.newSession(3, 2)
+			act("listen 2; its next write fails; open 1->2 (the SetPeer write fails); listen 2 again; open 3->2")
+		case 2: // the very first write (Opened) of a Session call fails; a withdrawal write of a Listen call fails
+			a := w.newSession(1, 2)
+			l := w.newListen(1)
+			q()
+			b := w.newSessionOpt(2, 1, false)
+			_ = b
+			q()
+			l.mtx.Lock()
+			l.failSend = true
+			l.mtx.Unlock()
+			w.submit(a, "fail-send")
+			b.kill() // A is to be told Closed: that write fails; the listener is to be told ClearPeer 2: that write fails
+			q()
+			a.mtx.Lock()
+			ae := a.sendErrs
+			a.mtx.Unlock()
+			w.expectEnded(a.id, "session", a.alive(), ae)
+			l.mtx.Lock()
+			le := l.sendErrs
+			l.mtx.Unlock()
+			w.expectEnded(l.id, "listen", l.alive(), le)
+			w.newListen(1)
+			w.newSession(2, 1)
+			w.newSession(1, 2)
+			act("attach 1->2; listen 1; attach 2->1; the next writes to 1->2 and to the listener fail; 2->1 is cancelled (Closed / ClearPeer writes fail); listen 1, attach 2->1, attach 1->2 again")
+		}
 	case "ident-mounted", "ident-callback":
 		// C20: identity of a stream (mounted stream context / ident callback) and requests before Init
 		firsts := append([]string(nil), rawFirsts...)
@@ -1015,8 +1394,15 @@ func (e *engine) scenario(kind string, n int) {
 				}
 				if len(ll) > 0 {
 					l := ll[e.rng.Intn(len(ll))]
-					l.kill()
-					act(fmt.Sprintf("cancel listen call %d", l.id))
+					if e.rng.Intn(3) == 0 {
+						l.mtx.Lock()
+						l.failSend = true
+						l.mtx.Unlock()
+						act(fmt.Sprintf("the next write to listen call %d fails", l.id))
+					} else {
+						l.kill()
+						act(fmt.Sprintf("cancel listen call %d", l.id))
+					}
 				}
 			case r < 33:
 				f := rawFirsts[e.rng.Intn(len(rawFirsts))]
@@ -1025,7 +1411,12 @@ func (e *engine) scenario(kind string, n int) {
 				act("session call with first request " + f)
 			default:
 				s := live[e.rng.Intn(len(live))]
-				kinds := []string{"send", "send", "send", "send", "send", "ack", "ack", "ack", "clear", "send-stale", "send-future", "send-forged-key", "send-tampered", "init-again", "close-rx", "cancel", "cancel", "send-keyed"}
+				kinds := []string{"send", "send", "send", "send", "send", "ack", "ack", "ack", "clear", "send-stale", "send-future", "send-forged-key", "send-tampered", "init-again", "close-rx", "cancel", "cancel", "send-keyed",
+					"ack-prev", "clear", "send-resigned"}
+				if e.rng.Intn(25) == 0 {
+					k0 := []string{"fail-send", "send-resigned-stale"}
+					kinds = k0
+				}
 				k := kinds[e.rng.Intn(len(kinds))]
 				if e.rng.Intn(12) == 0 {
 					fk := append(forgedKinds(), "send-nil-msg", "empty-request")
@@ -1138,6 +1529,76 @@ func (e *engine) observe(w *world, kind string, drained bool, cerr string) (mon,
 			}
 		}
 		s.mtx.Unlock()
+	}
+	// ---- C21 (relay side): acknowledgements and withdrawals name their message ----
+	// Stated on the traffic alone: an AckMsg(k) / ClearMsg(k) is transmitted to a stream only if a
+	// stream of its partner (the reverse ordered pair) had submitted an AckMsg / ClearMsg request
+	// naming exactly k before (position in the event log at submission), and every request
+	// justifies at most one transmission. A relay that turns the acknowledgement of one message
+	// into the acknowledgement of another, or invents one, transmits a value nobody named.
+	{
+		pair := map[int][2]int{}
+		for _, x := range w.scalls {
+			pair[x.id] = [2]int{x.src, x.dst}
+		}
+		w.mtx.Lock()
+		reqs := append([]reqRec(nil), w.reqs...)
+		w.mtx.Unlock()
+		used := make([]bool, len(reqs))
+		for i, line := range lines {
+			if !strings.HasPrefix(line, "TX tx,") {
+				continue
+			}
+			var kind string
+			switch {
+			case strings.Contains(line, ",r=ack,"):
+				kind = "ack"
+			case strings.Contains(line, ",r=clear,"):
+				kind = "clear"
+			default:
+				continue
+			}
+			c, _ := strconv.Atoi(txField(line, "c"))
+			k, _ := strconv.ParseUint(txField(line, "v"), 10, 64)
+			to := pair[c]
+			found := false
+			var named []string
+			for j, r := range reqs {
+				if r.kind != kind || r.at > i || pair[r.call] != [2]int{to[1], to[0]} {
+					continue
+				}
+				named = append(named, strconv.FormatUint(r.k, 10))
+				if !used[j] && r.k == k && !found {
+					used[j], found = true, true
+				}
+			}
+			if !found {
+				what := map[string]string{"ack": "an acknowledgement", "clear": "a withdrawal"}[kind]
+				set("sigsrv.ackclear:"+kind, fmt.Sprintf("call %d (%d->%d) was sent %s of message %d, but no stream of its partner had submitted a (not yet consumed) %s request naming message %d before; the partner's %s requests until then named [%s]", c, to[0], to[1], what, k, kind, k, kind, strings.Join(named, " ")))
+			}
+		}
+	}
+	for _, f := range w.expects {
+		if k, m := f(); m != "" {
+			set(k+kind, m)
+		}
+	}
+	// ---- C24 / C25: a handler whose write failed stops writing and returns ----
+	for _, s := range w.scalls {
+		s.mtx.Lock()
+		again := s.sendsAfterErr
+		s.mtx.Unlock()
+		if again > 0 {
+			set("sigsrv.send-error:"+kind, fmt.Sprintf("session call %d (%d->%d): a write on its stream returned an error, yet the handler wrote %d more responses instead of returning", s.id, s.src, s.dst, again))
+		}
+	}
+	for _, l := range w.lcalls {
+		l.mtx.Lock()
+		again := l.sendsAfterErr
+		l.mtx.Unlock()
+		if again > 0 {
+			set("sigsrv.send-error:"+kind, fmt.Sprintf("listen call %d for peer %d: a write on its stream returned an error, yet the handler wrote %d more responses instead of returning", l.id, l.pid, again))
+		}
 	}
 	// ---- C20: calls that must be refused before anything is registered ----
 	for _, s := range w.raws {
@@ -1288,9 +1749,53 @@ func (e *engine) observe(w *world, kind string, drained bool, cerr string) (mon,
 		}
 		// C25: a call replaced by a newer one has ended with the replaced error; a call nobody
 		// cancelled, closed, poisoned or replaced is still running
+		// C20: a stream that submitted a request the relay must refuse (a message that is not
+		// authentic, a message for a NEWER epoch than the relay's, a second Init, an empty request)
+		// has been FAILED: its handler has returned with an error. Stated on the call's own outcome.
+		// "newer than the server's": judged against the epoch the server itself logged in the
+		// critical section that handled the message (hook field sessq), not against what the
+		// harness believes the epoch to be
+		future := map[int]bool{}
+		for _, line := range lines {
+			if !strings.HasPrefix(line, "ev=send ") {
+				continue
+			}
+			a, _ := strconv.ParseUint(hookKV(line, "a"), 10, 64)
+			sq, _ := strconv.ParseUint(hookKV(line, "sessq"), 10, 64)
+			if c, ok := w.calls[hookKV(line, "call")]; ok && a > sq {
+				future[c] = true
+			}
+		}
 		for _, s := range w.scalls {
 			s.mtx.Lock()
-			excused := s.killed || s.closedRx || s.poison != ""
+			poison, killed, sendErrs := s.poison, s.killed, s.sendErrs
+			s.mtx.Unlock()
+			if poison == "send-future" && !future[s.id] {
+				poison = "" // the relay's epoch had moved past it: a stale message, dropped silently
+			}
+			if poison == "" && future[s.id] {
+				poison = "send-future"
+			}
+			switch {
+			case poison != "" && !killed && s.alive():
+				set("sigsrv.poison:"+poisonClass(poison), fmt.Sprintf("session call %d (%d->%d) submitted %s, which the relay must answer by failing the stream, but the call is still running at quiescence", s.id, s.src, s.dst, poison))
+			case poison != "" && !killed && s.err == nil:
+				set("sigsrv.poison:"+poisonClass(poison), fmt.Sprintf("session call %d (%d->%d) submitted %s, which the relay must answer by failing the stream, but the call returned without an error", s.id, s.src, s.dst, poison))
+			case sendErrs > 0 && s.alive():
+				set("sigsrv.send-error:"+kind, fmt.Sprintf("session call %d (%d->%d): a write on its stream returned an error but the call is still running at quiescence", s.id, s.src, s.dst))
+			}
+		}
+		for _, l := range w.lcalls {
+			l.mtx.Lock()
+			sendErrs := l.sendErrs
+			l.mtx.Unlock()
+			if sendErrs > 0 && l.alive() {
+				set("sigsrv.send-error:"+kind, fmt.Sprintf("listen call %d for peer %d: a write on its stream returned an error but the call is still running at quiescence", l.id, l.pid))
+			}
+		}
+		for _, s := range w.scalls {
+			s.mtx.Lock()
+			excused := s.killed || s.closedRx || s.poison != "" || s.sendErrs > 0
 			s.mtx.Unlock()
 			if excused {
 				continue
@@ -1307,7 +1812,7 @@ func (e *engine) observe(w *world, kind string, drained bool, cerr string) (mon,
 		}
 		for _, l := range w.lcalls {
 			l.mtx.Lock()
-			excused := l.killed
+			excused := l.killed || l.sendErrs > 0
 			l.mtx.Unlock()
 			if excused {
 				continue
@@ -1330,6 +1835,20 @@ func (e *engine) observe(w *world, kind string, drained bool, cerr string) (mon,
 		}
 		for _, m := range w.mon {
 			set("", m)
+		}
+		// C25 "keeps no per-peer or per-session state": every container field of the Server value
+		// itself (whatever it is called) is empty, and no goroutine of the relay package is left
+		if left := containerLens(w.srv); left != "" {
+			set("sigsrv.drain:"+kind, "all calls have ended but the relay's Server value still holds state: "+left)
+		}
+		if n, sample := relayGoroutines(); n > w.goBase {
+			for t0 := time.Now(); n > w.goBase && time.Since(t0) < 1500*time.Millisecond; {
+				time.Sleep(2 * time.Millisecond)
+				n, sample = relayGoroutines()
+			}
+			if n > w.goBase {
+				set("sigsrv.drain:"+kind, fmt.Sprintf("all calls have ended and returned but %d goroutine(s) started by the relay are still alive (before the scenario: %d), e.g. %s", n, w.goBase, sample))
+			}
 		}
 		// C25 "the older one ends with a replaced error": exactly the calls the SERVER decided were
 		// replaced (its write loop found another attachment on its side / its listen loop found a
@@ -1467,6 +1986,99 @@ func (e *engine) validate(w *world, kind string, actions []string, drained bool)
 	e.rep.Extra["events"] = e.rep.Extra["events"].(int) + strings.Count(trace, ";") + 1
 }
 
+// hookKV reads a key=value field of a hook line.
+func hookKV(line, k string) string {
+	i := strings.Index(line, " "+k+"=")
+	if i < 0 {
+		return ""
+	}
+	rest := line[i+len(k)+2:]
+	if j := strings.IndexByte(rest, ' '); j >= 0 {
+		rest = rest[:j]
+	}
+	return rest
+}
+
+// txField reads a field of a "TX tx,c=..,r=..,v=.." line.
+func txField(line, k string) string {
+	for _, f := range strings.Split(strings.TrimPrefix(line, "TX "), ",") {
+		if strings.HasPrefix(f, k+"=") {
+			return f[len(k)+1:]
+		}
+	}
+	return ""
+}
+
+// poisonClass groups the refused submissions for the finding key.
+func poisonClass(p string) string {
+	switch p {
+	case "send-future", "init-again", "empty-request":
+		return p
+	}
+	return "forged"
+}
+
+// containerLens walks the Server struct by reflection and reports every map / slice / channel
+// field that is not empty (fields are read by length only; no bifrost code is called).
+func containerLens(srv any) string {
+	v := reflect.ValueOf(srv)
+	for v.Kind() == reflect.Pointer {
+		v = v.Elem()
+	}
+	if v.Kind() != reflect.Struct {
+		return ""
+	}
+	var out []string
+	for i := 0; i < v.NumField(); i++ {
+		f := v.Field(i)
+		switch f.Kind() {
+		case reflect.Map, reflect.Slice, reflect.Chan:
+			if f.Len() != 0 {
+				out = append(out, fmt.Sprintf("%s has %d entries", v.Type().Field(i).Name, f.Len()))
+			}
+		case reflect.Pointer, reflect.Interface:
+			// a pointer to a container (e.g. *sync.Map is opaque; a *map / *[]T is followed)
+			if !f.IsNil() && f.Kind() == reflect.Pointer {
+				if e := f.Elem(); e.Kind() == reflect.Map || e.Kind() == reflect.Slice {
+					if e.Len() != 0 {
+						out = append(out, fmt.Sprintf("*%s has %d entries", v.Type().Field(i).Name, e.Len()))
+					}
+				}
+			}
+		}
+	}
+	return strings.Join(out, "; ")
+}
+
+var stackBuf = make([]byte, 1<<20)
+
+// relayGoroutines counts the goroutines whose stack has a frame in the relay package (handlers,
+// their read goroutines and anything they started), and returns the top frame of one of them.
+func relayGoroutines() (int, string) {
+	var n int
+	for {
+		n = runtime.Stack(stackBuf, true)
+		if n < len(stackBuf) {
+			break
+		}
+		stackBuf = make([]byte, 2*len(stackBuf))
+	}
+	cnt, sample := 0, ""
+	for _, g := range strings.Split(string(stackBuf[:n]), "\n\n") {
+		if i := strings.Index(g, "signaling/rpc/server."); i >= 0 {
+			cnt++
+			if sample == "" {
+				rest := g[i:]
+				if j := strings.IndexByte(rest, '\n'); j >= 0 {
+					rest = rest[:j]
+				}
+				sample = rest
+			}
+		}
+	}
+	return cnt, sample
+}
+
 func keys(m map[int]bool) []int {
 	var l []int
 	for k := range m {
@@ -1480,7 +2092,17 @@ func (e *engine) run() {
 	e.rep.Rule = "seeded random schedules of client actions (attach/usurp/send/stale/future/forged/tampered and hand-assembled submissions: foreign or victim key attached, other signing context, unsigned, empty signature, nil body, nil message; ack/clear/re-init/close/cancel/listen/invalid first requests) among five peers on the real relay server (identity by callback or by mounted stream context) through fake streams with jitter; every server critical section + every response is replayed against the Lean LTS; monitors on the real traffic, returned errors and logged state are evaluated whether or not the replay diverged; sentinels: detach+re-attach and usurp while the partner stays (F10), late attach with a single sender (F9), listen across open/close/re-open (F8), listen usurp followed by session opens, overlapping session calls of one pair, every forgery class in the current epoch with the partner attached, requests before Init / streams without identity; distinct = distinct schedule"
 	e.rep.Require("trace.random.quiescent", "trace.random.drained", "trace.reattach-race.quiescent", "trace.late-attach.quiescent", "trace.listen-reopen.quiescent", "trace.listen-swap.quiescent", "trace.usurp-while-partner-blocked.quiescent", "trace.listen-stale-cleanup.quiescent",
 		"trace.listen-usurp-open.quiescent", "trace.session-overlap.quiescent", "trace.listen-many.quiescent", "trace.forgery-classes.quiescent", "trace.ident-mounted.quiescent", "trace.ident-callback.quiescent", "trace.session-overlap.drained", "trace.listen-usurp-open.drained")
+	e.rep.Require("trace.resigned-copy.quiescent", "trace.stale-ack.quiescent", "trace.stored-then-stale.quiescent", "trace.send-error-exit.quiescent", "trace.send-error-exit.drained")
 	e.rep.Extra["events"] = 0
+	e.rep.Extra["withdrawals_held_at_quiescence"] = 0
+	e.scenario("resigned-copy", 1)
+	e.scenario("stale-ack", 1)
+	for i := 0; i < 2; i++ {
+		e.scenario("stored-then-stale", i)
+	}
+	for i := 0; i < 3; i++ {
+		e.scenario("send-error-exit", i)
+	}
 	e.scenario("late-attach", 1)
 	e.scenario("listen-reopen", 2)
 	e.scenario("usurp-while-partner-blocked", 1)
